@@ -17,7 +17,7 @@ PID = "C20"
 LEVEL = "fault_enumeration"
 
 ALPHABET = {
-    "nr_exp": [2, 3, 4, 5], "ntheta_exp": [-1, 2, 3, 4, 5, 6], "aniso": [0, 1, 2], "div2": [0, 1], "R0": [1e-5, 0.1], "dirbc": [0, 1],
+    "nr_exp": [2, 3, 4, 5], "ntheta_exp": [-1, 2, 3, 4, 5, 6], "aniso": [0, 1, 2], "div2": [0, 1], "R0": [1e-5, 0.1], "Rmax": [1.3, 1.0, 2.5], "dirbc": [0, 1],
     "fmg": [0, 1], "fmg_it": [0, 1, 2, 3], "fmg_cycle": [0, 1, 2], "extr": [0, 1, 2, 3], "maxlev": [-1, 1, 2, 3, 10], "pre": [0, 1, 2],
     "post": [0, 1, 2], "cycle": [0, 1, 2], "maxit": [0, 1, 2, 150], "norm": [0, 1, 2], "abstol": [-1.0, 0.0, 1e-8, 1e-3],
     "reltol": [-1.0, 0.0, 1e-8, 1e-3], "threads": [1, 2, 4, 16], "tfactor": [1.0, 0.5, 0.1], "strat": [0, 1], "cc": [0, 1], "cg": [0, 1],
